@@ -30,7 +30,7 @@ def main():
             r = json.load(f)
         print('replaying %s (%s) on the current tree' % (r['key'], r['where']))
     rc = engine.run_property(a.prop, a.tier, REGISTRY[a.prop], seed=seed)
-    if a.tier == 'thorough' and rc in (0, 1):
+    if a.tier == 'thorough' and rc in (0, 1) and not os.environ.get('FCVERIF_NO_SELFTEST'):
         from . import selftest
         rc2 = selftest.run(a.prop)
         rc = max(rc, rc2)
